@@ -113,6 +113,19 @@ CHECKS = {
              "creation failing after creating are excluded (no program can clean up after them); SIGKILL is out of scope.",
         tech="Coq proof (exhaustive enumeration of fault schedules of an IO-language model) + exhaustive fault-injection correspondence",
     ),
+    "C17": dict(
+        text="PARTIAL. Coq theorems over abstract archives (member -> content) under the section hypothesis "
+             "StormLibSpec (extract = lookup, add = replace-or-insert, compact = identity): the saved archive holds the "
+             "encoder's bytes as scenario.chk, every other member unchanged, reading it back returns those bytes; "
+             "imported audio sits under staredit\\wav\\<basename> and no other member moves. That the bundled libstorm "
+             "satisfies StormLibSpec, and that durations are the files' true durations, is runtime behaviour: the "
+             "check runs the real library over every base archive x {unedited, bigger, smaller} maps and audio sets "
+             "and compares listings, per-member hashes and the PlayWav duration.",
+        ref="DESIGN.md 5.17",
+        note="StormLibSpec is a hypothesis (universally quantified premise, not an Axiom). Float arithmetic of the "
+             "duration computation is not modelled.",
+        tech="Coq proof under an explicit library hypothesis (partial) + correspondence against the real libstorm.so",
+    ),
     "C18": dict(
         text="Coq theorem C18_registries_complete_from_any_entry_point: a model of Python's import machinery (sys.modules "
              "with partially initialised modules, parent packages first, from-import of a not-yet-bound name fails, "
